@@ -260,6 +260,60 @@ PROPS.update({
 })
 
 
+def gnpstat_check(req, I):
+    """C16: over many seeds the mean number of edges is p x pairs to within a relative 1/(n-1) plus sampling noise (4.5 sigma);
+    for small n every possible pair occurs."""
+    t = req.split()
+    if t[0] != 'gnpstat' or 'sum' not in I:
+        return []
+    import math
+    n, pnum, pden, directed = int(t[1]), int(t[2]), int(t[3]), t[4] == '1'
+    p = pnum / pden
+    pairs = n * (n - 1) if directed else n * (n - 1) // 2
+    count = int(I['count'])
+    out = []
+    if I.get('errs') != '0':
+        out.append({'field': 'gnpstat.errs', 'impl': I.get('errs'), 'spec': '0 errors for 0 < p < 1'})
+    mean = int(I['sum']) / count
+    expect = p * pairs
+    allow = expect / max(n - 1, 1) + 4.5 * math.sqrt(pairs * p * (1 - p) / count)
+    if abs(mean - expect) > allow:
+        out.append({'field': 'gnpstat.mean', 'impl': f'mean edges {mean:.3f} over {count} seeds', 'spec': f'{expect:.3f} +- {allow:.3f}'})
+    if n <= 12 and count >= 300 and p >= 0.3 and int(I['union']) != pairs:
+        out.append({'field': 'gnpstat.union', 'impl': f'{I["union"]} distinct pairs seen', 'spec': f'all {pairs} pairs can occur'})
+    return out
+
+
+def gen_hist(req, I):
+    t = req.split()
+    keys = ['family.' + t[0]]
+    if t[0] == 'gnp':
+        n = int(t[1])
+        keys.append('gnp.n.%s' % ('0-5' if n <= 5 else '6-40' if n <= 40 else '41+'))
+        keys.append('gnp.' + ('invalid-p' if I.get('nodes', '').startswith('E') else 'ok'))
+        keys.append('gnp.dir' + t[4])
+    return keys
+
+
+PROPS.update({
+    'C16': dict(
+        gens=[('complete', '-', 120, 600, 14), ('karate', '-', 1, 1, 0), ('gnp', 'small', 1500, 25000, 40), ('gnp', 'large', 40, 400, 300),
+              ('gnpstat', '-', 24, 200, 0)],
+        translators=['karate'],
+        spec_fields=[r'ok\.complete', r'ok\.karate', r'ok\.gnp'], model_fields=[r'nodes', r'edges'], impl_checks=[('same', '1')],
+        custom=gnpstat_check, require_spec_fields=False,
+        nontrivial=lambda req, I: I.get('edges', '.') not in ('.', 'E3') or 'sum' in I,
+        hist=gen_hist,
+        rule='complete_graph(n, directed) for n in 0..14; karate_club_graph(); fast_gnp_random_graph(n, p, directed, seed) for n in 0..40 '
+             '(model comparison through the skip sequence the seed produces) and 41..300 (structure only), p in {0, 1, <0, >1, 1e-12, 1e-17, '
+             '0.999999, 0.01..0.99}; statistical runs of 60-600 seeds per (n, p, directedness); non-trivial = at least one edge',
+        assumptions=COMMON_ASSUME[:2] + ['the ChaCha20 stream, ln and the uniform->geometric transformation are library / textbook facts: the model '
+                                         'takes the skip sequence as input, the statistical test (mean edge count, 4.5 sigma) covers the rest'],
+        trusted_extra=['tools/extract.py (karate table translator)'],
+    ),
+})
+
+
 def run_translator(ctx, name):
     import extract
     return extract.run(ctx, name)
